@@ -20,6 +20,8 @@ def check(model, R, tier):
     R.rule('C14.TREE', 'identities that hold by construction in this code base (one side is implemented through the other): the implementation\'s composition tree equals the documented one', floor=16)
     ops, _ = opcat.catalogue(model)
     byname = {o.qual: o for o in ops}
+    from sa.rules_defn import check_fused
+    check_fused(model, R, 'C14')
     # ---- operator identities (a - b, a / b, reflected forms, neg): shared with C05
     sub = _Sub(R)
     check_operators(model, sub)
@@ -132,14 +134,15 @@ def check(model, R, tier):
             R.ob('C14.AFFINE', q, 'dependence on y_true: %s' % c, c == L.LIN, why, f.loc)
         except Incomplete as e:
             R.incomplete_at('C14.AFFINE', q, str(e))
-    R.note('undecided (native implementations, no tree to compare): cross-entropy backward, BCE-with-logits = BCE(sigmoid), log_softmax = log(softmax), convolution = unfold @ weight (shares only extract_windows), '
+    R.note('undecided (native implementations, no tree or term to compare): cross-entropy backward, the gradient side of BCE-with-logits / log_softmax, convolution = unfold @ weight (shares only extract_windows), '
            'stack = concat of unsqueezed (np.stack), unbind inverts stack (np.rollaxis), mean = sum / count in the forward (np.mean), movedim between adjacent dims = transpose (np.moveaxis / np.swapaxes)')
     return dict(
         explanation='Value equality of two independently written implementations is out of reach of this family. 16 of the listed identities hold BY CONSTRUCTION in this code base - one side is literally implemented through the other - '
                     'and for those the identity is decided as equality of composition trees (operator overloads, addmm, linear, flatten, stack backward, pooling, mean backward, Neuron, Sequential, cross-entropy forward). '
-                    'Natively re-implemented sides are listed as undecided and never alarm.',
-        assumptions=['commutativity of add / mul for canonicalising trees'],
-        technique='call-graph composition-tree extraction + tree equality')
+                    'Two natively re-implemented forward identities (log_softmax = log of softmax, BCE-with-logits = BCE of sigmoid) are decided as equality of terms under exp / log / axis-sum algebra: the kernels are partially evaluated '
+                    'and the log-sum-exp / relu shifts must cancel exactly. The remaining native sides are listed as undecided and never alarm.',
+        assumptions=['commutativity of add / mul for canonicalising trees', 'exp / log identities over the reals with positive log operands; the BCE guard epsilon -> 0 and its clamp region excluded'],
+        technique='call-graph composition-tree extraction + tree equality + exp/log term normal form over partially evaluated kernels')
 
 
 class _Sub:
